@@ -203,10 +203,15 @@ def jobs(tier, seed):
         # quick: initial/final weights always present (arc weights free); thorough: everything free
         alw = []
         first = (a, b) == pairs[0]
+        alw_all = list(range(len(A.arcs), A.K)) + list(range(A.K + len(B.arcs), K))
         if quick or not first:
-            alw = list(range(len(A.arcs), A.K)) + list(range(A.K + len(B.arcs), K))
+            alw = alw_all
         for e in exprs:
-            bits = [0] if quick else (list(range(min(4, K))) if first else [0, 1])
+            heavy = first and not quick and e in EXPRS_Q[:9]   # everything free only for the nine basic expressions of the first pair
+            bits = [0] if quick else (list(range(min(4, K))) if heavy else [0, 1])
+            if not quick and first and not heavy:
+                out += split_job(dict(case="rational", params=dict(operands={"A": a, "B": b}, exprs=[e], strings=strings, always=alw_all, call=False)), bits)
+                continue
             out += split_job(dict(case="rational", params=dict(operands={"A": a, "B": b}, exprs=[e], strings=strings, always=alw, call=(e in EXPRS_Q[:5]))), bits)
     out.append(dict(case="constructors", params=dict(strings=[list(x) for x in all_strings(["a", "b"], 3)])))
     out.append(dict(case="rational", params=dict(operands={"A": "A-S1", "B": "A-S2"}, exprs=[["mul", "A", "B"]], strings=[[], ["a"], ["a", "b"]], canary=True)))
